@@ -143,8 +143,13 @@ func (rfp MaskedTransformProtocol) AggregateShares(share1, share2 multiparty.Ref
 	rfp.s2e.params.RingQ().AtLevel(share1.ShareToEncShare.Value.Level()).Add(share1.ShareToEncShare.Value, share2.ShareToEncShare.Value, shareOut.ShareToEncShare.Value)
 
 	// The aggregate is a share of the same ciphertext: it carries its metadata, which the
-	// finalization checks (the receiver may be a new share that has none yet).
-	shareOut.MetaData = share1.MetaData
+	// finalization checks (the receiver may be a new share that has none yet, and so may
+	// one of the operands: an accumulator that was just allocated).
+	if share1.MetaData.Scale.Value.Sign() != 0 {
+		shareOut.MetaData = share1.MetaData
+	} else {
+		shareOut.MetaData = share2.MetaData
+	}
 
 	return
 }
